@@ -9,7 +9,7 @@ use super::CheckDef;
 use crate::bfs::Bfs;
 use crate::report::{CheckInfo, Partial, Tier, Violation};
 use crate::sim::{MIN, SEC};
-use crate::srv::{replay_path, src_addr, Act, Cas, Sig, SrvCfg, SrvState, Tok, VetoFilter, SOURCES};
+use crate::srv::{replay_path, src_addr, Act, Cas, Sig, SrvCfg, SrvState, Tok, VetoFilter, N_SOURCES};
 
 fn base(name: &'static str, alphabet: Vec<Act>, props: &[&'static str]) -> SrvCfg {
     SrvCfg {
@@ -32,6 +32,32 @@ const TICKS: [u64; 3] = [SEC, 4 * MIN + 59 * SEC, 5 * MIN + SEC];
 
 fn token_variants() -> Vec<Tok> {
     vec![Tok::OtherIp, Tok::Foreign, Tok::Empty, Tok::Mutated(0), Tok::Mutated(3), Tok::Oldest]
+}
+
+/// One info hash announced to by 24 peers (more than the 20 a reply carries), plain and signed:
+/// replies are then a sample of the store. A short alphabet on top: reads, a new announcer, an
+/// old one announcing again, and announcers 25-27 (the 27th overflows the capacity of 26).
+fn many_announcers(name: &'static str, props: &[&'static str]) -> SrvCfg {
+    let a = vec![
+        Act::GetPeers { src: 0, ih: 0 },
+        Act::GetSigned { src: 2, ih: 0 },
+        Act::Announce { src: 0, ih: 0, port: 7777, implied: None, tok: Tok::Fresh },
+        Act::Announce { src: 4, ih: 0, port: 9999, implied: None, tok: Tok::Fresh },
+        Act::Announce { src: 2, ih: 0, port: 0, implied: Some(1), tok: Tok::Fresh },
+        Act::Announce { src: 3, ih: 0, port: 5, implied: None, tok: Tok::Fresh },
+        Act::AnnounceSigned { src: 0, ih: 0, key: 0, dt: 0, sig_ok: true, tok: Tok::Fresh },
+        Act::AnnounceSigned { src: 2, ih: 0, key: 1, dt: 0, sig_ok: true, tok: Tok::Fresh },
+        Act::AnnounceSigned { src: 2, ih: 0, key: 2, dt: 0, sig_ok: true, tok: Tok::Fresh },
+    ];
+    let mut c = base(name, a, props);
+    c.cap_hashes = 2;
+    c.cap_peers = 26;
+    for src in 4..28u8 {
+        c.prime.push(Act::GetPeers { src, ih: 0 });
+        c.prime.push(Act::Announce { src, ih: 0, port: 2000 + src as u16, implied: None, tok: Tok::Fresh });
+        c.prime.push(Act::AnnounceSigned { src, ih: 0, key: src, dt: 0, sig_ok: true, tok: Tok::Fresh });
+    }
+    c
 }
 
 pub fn cfgs_c03() -> Vec<SrvCfg> {
@@ -113,6 +139,26 @@ pub fn cfgs_c03() -> Vec<SrvCfg> {
     a.push(Act::Tick(SEC));
     a.push(Act::Tick(5 * MIN + SEC));
     v.push(base("c03-signed", a, p));
+    // --- the same announcer announces again (other port, implied instead of explicit, newer
+    // timestamp): the latest accepted announcement is what is served
+    let a = vec![
+        Act::GetPeers { src: 0, ih: 0 },
+        Act::GetPeers { src: 2, ih: 0 },
+        Act::GetSigned { src: 0, ih: 0 },
+        Act::Announce { src: 0, ih: 0, port: 7777, implied: None, tok: Tok::Fresh },
+        Act::Announce { src: 0, ih: 0, port: 7778, implied: None, tok: Tok::Fresh },
+        Act::Announce { src: 0, ih: 0, port: 7779, implied: Some(1), tok: Tok::Fresh },
+        Act::Announce { src: 1, ih: 0, port: 7777, implied: None, tok: Tok::Fresh },
+        Act::Announce { src: 2, ih: 0, port: 7777, implied: None, tok: Tok::Fresh },
+        Act::Announce { src: 2, ih: 0, port: 0, implied: Some(1), tok: Tok::Fresh },
+        Act::AnnounceSigned { src: 0, ih: 0, key: 0, dt: 0, sig_ok: true, tok: Tok::Fresh },
+        Act::AnnounceSigned { src: 0, ih: 0, key: 0, dt: 2_000, sig_ok: true, tok: Tok::Fresh },
+        Act::AnnounceSigned { src: 2, ih: 0, key: 0, dt: -3_000, sig_ok: true, tok: Tok::Fresh },
+        Act::AnnounceSigned { src: 2, ih: 0, key: 1, dt: 0, sig_ok: true, tok: Tok::Fresh },
+        Act::Tick(SEC),
+    ];
+    v.push(base("c03-reannounce", a, p));
+    v.push(many_announcers("c03-many-announcers", p));
     // --- request filter vetoing ip2
     let a = vec![
         Act::Get { src: 0, target: 3, seq: None },
@@ -272,6 +318,7 @@ pub fn cfgs_c20() -> Vec<SrvCfg> {
         c.cap_peers = cap_p;
         v.push(c);
     }
+    v.push(many_announcers("c20-many-announcers", p));
     v
 }
 
@@ -325,7 +372,7 @@ pub fn e1_replay(cfg: &SrvCfg, path: &[u16]) -> Partial {
     let mut w = World::new(Chooser::default_run());
     w.default_latency = 0;
     w.keep_log = false;
-    for i in 0..SOURCES.len() {
+    for i in 0..N_SOURCES {
         w.add_endpoint(src_addr(i as u8));
     }
     let mut nc = NodeCfg::new([5, 5, 5, 5], 6881).server();
